@@ -198,6 +198,29 @@ fn run_case(dec: &str, class: &str, rng: &mut SmallRng) -> Vec<(String, Got)> {
                     h.extend_from_slice(&[1, 187, 2, 4, 0xff, 0xfe, 0x80, 0x81]);
                     vec![with_fnv(h)]
                 }
+                "UnusualOptions" => {
+                    // every option mask with the two documented ciphers, every security code with the usual masks
+                    let mut v = Vec::new();
+                    for option in 0..=255u8 {
+                        for sec in [rv::SEC_AES128_GCM, rv::SEC_CHACHA20_POLY1305] {
+                            let mut h = fixed.clone();
+                            h[34] = option;
+                            h[35] = sec;
+                            h.extend_from_slice(&[1, 187, 1, 10, 0, 0, 1]);
+                            v.push(with_fnv(h));
+                        }
+                    }
+                    for sec in 0..16u8 {
+                        for option in [0u8, 1, 0x1d] {
+                            let mut h = fixed.clone();
+                            h[34] = option;
+                            h[35] = sec;
+                            h.extend_from_slice(&[1, 187, 1, 10, 0, 0, 1]);
+                            v.push(with_fnv(h));
+                        }
+                    }
+                    v
+                }
                 _ => vec![],
             };
             for (i, h) in headers.iter().enumerate() {
@@ -205,7 +228,49 @@ fn run_case(dec: &str, class: &str, rng: &mut SmallRng) -> Vec<(String, Got)> {
                 let mut wire = rv::seal_request_header(&ck, &aid, &rng.random(), h);
                 wire.extend_from_slice(&[0u8; 40]);
                 let l = sv::listener(&sut::vmess_server_cfg(&[sut::UUID_A])).unwrap();
-                out.push((format!("variant {i}"), sut::server_decode(&mut l.new_codec().unwrap(), &mut BytesMut::from(&wire[..]))));
+                let mut codec = l.new_codec().unwrap();
+                let mut got = sut::server_decode(&mut codec, &mut BytesMut::from(&wire[..]));
+                if class == "UnusualOptions" && matches!(got, Got::Connect(..) | Got::Tcp(..) | Got::Udp(..) | Got::None) {
+                    // the request is served: the server writes its answer (response header + first chunk) for it
+                    let mut dst = BytesMut::new();
+                    for _ in 0..2 {
+                        match crate::util::catch(|| tokio_util::codec::Encoder::encode(&mut codec, sv::Out::Tcp(BytesMut::from(&b"answer"[..])), &mut dst)) {
+                            Ok(Ok(())) => {}
+                            Ok(Err(e)) => {
+                                got = Got::Err(format!("answer refused: {e}"));
+                                break;
+                            }
+                            Err(p) => {
+                                got = Got::Panic(format!("while writing the answer: {p}"));
+                                break;
+                            }
+                        }
+                    }
+                }
+                out.push((format!("variant {i} option {:#04x} security {}", h.get(34).copied().unwrap_or(0), h.get(35).copied().unwrap_or(0)), got));
+            }
+        }
+        "vmess-resp-header" => {
+            // the server's answer begins with a sealed length and a sealed header of that length; both open under the
+            // request-derived keys (a server that holds the user's id), the header is shorter than its four fixed bytes
+            let ck = rv::cmd_key(sut::UUID_A).unwrap();
+            for cipher in c04::VMESS {
+                let lens: Vec<usize> = if class == "Empty" { vec![0] } else { vec![1, 2, 3] };
+                for hl in lens {
+                    let addr = Addr::Domain(b"example.com".to_vec(), 443);
+                    let mut client = cv::tcp_codec(&sut::vmess_client_cfg(cipher, sut::UUID_A), &addr.to_octo()).unwrap();
+                    let mut c2s = BytesMut::new();
+                    if tokio_util::codec::Encoder::encode(&mut client, BytesMut::from(&b"hello"[..]), &mut c2s).is_err() {
+                        continue;
+                    }
+                    let Some((_, h, _)) = rv::open_request_header(&ck, &c2s) else { continue };
+                    let Some(req) = rv::VmessReq::parse(&h) else { continue };
+                    let (rk, ri) = rv::resp_keys(&req.key, &req.iv);
+                    let full = rv::seal_response_header_raw(&rk, &ri, &[req.resp_auth, req.option, 0, 0][..hl]);
+                    let mut buf = BytesMut::from(&full[..]);
+                    buf.extend_from_slice(&[0u8; 64]);
+                    out.push((format!("{cipher} response header of {hl} bytes"), sut::client_decode(&mut client, &mut buf)));
+                }
             }
         }
         "vmess-req-body" | "vmess-resp-body" => {
